@@ -44,7 +44,8 @@ MANIFEST = dict(
          "fix findfirst differs from findall[0] exactly for a filtered '**' step directly followed by '..' whose tail collapses, "
          "206 such expressions found by exhaustive search, none after the fix). C18_parse_render / C18_parseStep_render / "
          "C18_findall_rendered: for expressions of the property's grammar (tokens '..' or tag[idx][text() op v], tag a name, "
-         "'*' or '**', idx absent/[*]/[i], op = or !=, value non-empty without quotes and '/') whose text contains no '**/**', "
+         "'*' or '**', idx absent/[*]/[i], op = or !=, value non-empty without quotes and '/') whose text contains no '**/**' "
+         "(C18_parse_render_noDD: structurally, no plain '**' token directly followed by a '**...' token), "
          "the '**/**' loop + path split + '..' test + step parser (which stands for the regex) return exactly the tokens, so "
          "findall(string) is findall(list of rendered steps). The step regex is replaced by a hand-written parser validated "
          "against re.match (regex read from the source, also on every rendered grammar step); the '**/**' collapse itself, "
